@@ -401,7 +401,19 @@ def cmd_selftest(args, n=None):
     return 0
 
 
+def _scratch_base():
+    """one scratch directory for the real cwd of every process of this invocation (see core._scratch_cwd)"""
+    import atexit
+    import shutil
+    import tempfile
+    base = tempfile.mkdtemp(prefix="cryosim-cwd-")
+    os.environ["CRYOSIM_SCRATCH_BASE"] = base
+    owner = os.getpid()
+    atexit.register(lambda: os.getpid() == owner and shutil.rmtree(base, ignore_errors=True))
+
+
 def main():
+    _scratch_base()
     ap = argparse.ArgumentParser()
     ap.add_argument("prop")
     ap.add_argument("--tier", default=os.environ.get("VERIF_TIER") or "quick", choices=["quick", "thorough"])
